@@ -25,6 +25,7 @@ RULE = (
 ASSUMPTIONS = ["the temp directory is a private per-case directory (tempfile.tempdir), so leftovers are attributable", "python -O (asserts stripped) is not among the configurations"]
 
 NEVER = ["leaf", "tag", [["key", "zz_never"]], ["cmp", "==", "x"]]
+NOOPQ = ["leaf", "time", [], ["noop"]]
 
 
 @st.composite
@@ -41,6 +42,10 @@ def cases(draw):
         st.tuples(st.just("noop_update"), st.sampled_from(["unset_absent_tag", "unset_absent_field", "tags_echo", "time_other_zone"]), gen_ops.hit_spec()).map(list),
         st.tuples(st.just("insert"), gen.points(), st.booleans()).map(list),
         st.tuples(st.just("insert"), gen.points(), st.booleans()).map(list),
+        # a removal / update scoped to one measurement whose query matches a point of ANOTHER measurement only: matches nothing
+        st.tuples(st.just("noop_foreign"), gen_ops.hit_spec(), st.sampled_from(["remove_h", "remove_m", "update_h"]), st.booleans()).map(list),
+        # an update that sets a field to a value equal to the stored one and written the same way (1.0 for 1, 0 for 0.0): changes nothing
+        st.tuples(st.just("noop_equal_value"), gen_ops.hit_spec()).map(list),
         st.tuples(st.just("insert_multiple"), st.lists(gen.points(), min_size=1, max_size=3), st.one_of(st.none(), st.integers(0, 3))).map(list),
         st.tuples(st.just("remove_hit"), gen_ops.hit_spec()).map(list),
         st.tuples(st.just("update_hit"), gen_ops.hit_spec(), st.sampled_from([{"tags": {"a": "upd"}}, {"fields": {"f": 7}}, {"measurement": "m2"}, {"unset_tags": "a"}, {"tags": ["fn_raise", 1, "tags_const"]}, {"tags": ["fn_raise", 2, "tags_const"]}, {"tags": "KBINT"}, {"fields": "KBINT"}])).map(list),
@@ -101,8 +106,9 @@ class Run:
             raise
         except Exception as e:
             if expect_oserror:
-                self.fail("gate-wrong-exception", "%s raised %s(%s), OSError expected" % (what, type(e).__name__, e))
-            if not isinstance(e, (lockstep.CallableRaised, TypeError)):
+                # the statement says "must raise", not which exception: anything but OSError is only counted
+                self.acc.cls("gate_raised_%s" % type(e).__name__)
+            elif not isinstance(e, (lockstep.CallableRaised, TypeError)):
                 self.fail("unexpected-exception", "%s raised %s(%s)" % (what, type(e).__name__, e))
             out = e
         after = self.bytes()
@@ -207,6 +213,47 @@ class Run:
             # (the returned count is C03's subject; here only bytes and leftovers matter)
             if m.points:
                 self.flags.add("noop_on_nonempty")
+        elif k == "noop_foreign":
+            if not m.points:
+                return
+            p = m.points[op[1][0] % len(m.points)]
+            others = sorted({x["measurement"] for x in m.points if x["measurement"] != p["measurement"]})
+            if not others:
+                return
+            scope = others[op[1][2] % len(others)]
+            ls = _Resolver(m)
+            q = lockstep.Lockstep.resolve_hit(ls, [op[1][0], op[1][1], 0, 0], NEVER)
+            if m.matches(q, scope) or not m.matches(q, p["measurement"]):
+                return
+            h = db.measurement(scope)
+            if op[3] and can_read:
+                # a scoped read first (whatever it memoises per measurement must not decide what the write touches)
+                self.unchanged(lambda: (h.count(qast.build(NOOPQ)), h.get_tag_keys(), h.get_timestamps()), "scoped reads")
+            fn = {"remove_h": lambda: h.remove(qast.build(q)), "remove_m": lambda: db.remove(qast.build(q), scope), "update_h": lambda: h.update(qast.build(q), tags={"zz_foreign": "1"})}[op[2]]
+            r = self.unchanged(fn, "%s scoped to %r with a query matching only a point of %r" % (op[2], scope, p["measurement"]), expect_oserror=not (can_read and can_write))
+            if can_read and can_write and r != 0:
+                self.fail("foreign-touched", "%s scoped to %r returned %r for a query that matches no point of that measurement" % (op[2], scope, r))
+            self.flags.add("noop_on_nonempty")
+            self.acc.cls("noop_foreign_" + op[2])
+        elif k == "noop_equal_value":
+            if not m.points:
+                return
+            p = m.points[op[1][0] % len(m.points)]
+            cands = [(k_, v) for k_, v in sorted(p["fields"].items()) if isinstance(v, (int, float)) and not isinstance(v, bool) and v == v and abs(v) != float("inf") and float(v).is_integer()]
+            if not cands:
+                return
+            fk, v = cands[op[1][2] % len(cands)]
+            if v == 0 and str(float(v)) == "-0.0":
+                return  # writing 0.0 over -0.0 arguably IS a change of what is stored: not claimed either way
+            same = float(v) if isinstance(v, int) else int(v)  # 1 <-> 1.0: equal, and the same text in the file
+            ls = _Resolver(m)
+            q = ["and", lockstep.Lockstep.resolve_hit(ls, [op[1][0], "time", 0, 0], NEVER), ["leaf", "field", [["key", fk]], ["cmp", "==", v]]]
+            if any(str(float(x["fields"][fk])) == "-0.0" for x in m.matches(q)):
+                return  # (the query cannot tell 0 from -0.0; see above)
+            self.unchanged(lambda: db.update(qast.build(q), fields={fk: same}), "update setting field %r to %r where it is %r already" % (fk, same, v), expect_oserror=not (can_read and can_write))
+            if m.points:
+                self.flags.add("noop_on_nonempty")
+            self.acc.cls("noop_equal_value")
         elif k == "insert":
             if can_append:
                 try:
@@ -227,7 +274,7 @@ class Run:
                     if op[2] is not None:
                         self.fail("accepted", "insert_multiple accepted a non-Point")
                     good = op[1]
-                except TypeError:
+                except (TypeError, ValueError):
                     good = op[1][: min(op[2], len(op[1]))] if op[2] is not None else op[1]
                 except Violation:
                     raise
